@@ -788,7 +788,8 @@ def mh_setup(vnames, rng, **kw):
 
 def pt_setup(vnames, rng, **kw):
     nt = kw.pop('ntemps', rng.choice([2, 3]))
-    betas = [1.0, 0.5, 0.2][:nt]
+    # tall ladders are geometric (as epsie.make_betas_ladder): a mix of accepted and rejected exchanges
+    betas = [1.0, 0.5, 0.2][:nt] if nt <= 3 else [float(10.0 ** (-(nt - 2.0) * j / (nt - 1))) for j in range(nt)]
     return Setup(vnames, 'pt', nchains=kw.pop('nchains', 1), betas=betas,
                  swap_interval=kw.pop('swap_interval', rng.choice([1, 2, 3])),
                  T=kw.pop('T', rng.choice([5, 7, 9])), pseed=rng.randrange(1, 10 ** 6), **kw)
@@ -884,6 +885,11 @@ def c19_cases(seed, tier, full):
             st = pt_setup([v] + ([partner] if partner else []), rng, ntemps=nt,
                           swap_interval=rng.choice([1, 2]), nchains=1)
             units.append(('pt', st, rng.randrange(1, 10 ** 6), 12 if not thorough else 60))
+    # tall, closely spaced ladders: sweeps in which an unexchanged level sits between exchanged ones
+    for v in (rng.sample(ADAPTIVE, 6) if thorough else rng.sample(ADAPTIVE, 2)):
+        for nt in (6, 8):
+            st = pt_setup([v], rng, ntemps=nt, swap_interval=1, nchains=1)
+            units.append(('pt', st, rng.randrange(1, 10 ** 6), 12 if not thorough else 40))
     # a jump interval larger than the swap interval: the first sweep meets nsteps == 0
     for v in (ADAPTIVE if thorough else ADAPTIVE[:3]):
         st = pt_setup([v], rng, ntemps=2, swap_interval=1, nchains=1, k=3)
